@@ -18,6 +18,7 @@ class IsNonRandExprVisitor(ModelVisitor):
         return self._is_nonrand
 
     def visit_expr_fieldref(self, e):
-        self._is_nonrand = not e.fm.is_used_rand
+        # The expression is non-random only if every field it references is
+        self._is_nonrand = self._is_nonrand and not e.fm.is_used_rand
         
         
